@@ -377,6 +377,37 @@ func (e *fdEngine) Generate(seed uint64, tier string, run int) (json.RawMessage,
 			return json.Marshal(c)
 		}
 	}
+	if rk.Chance(0.008) {
+		// structure-aware plan: one operator of a CFF Top or Private DICT replaced by another
+		// one-byte operator (its operands then mean something else, and what it used to define
+		// falls back to the default: predefined charset and encoding, no subroutines, ...)
+		var otf []string
+		for _, f := range files {
+			if strings.HasSuffix(strings.ToLower(f), ".otf") {
+				otf = append(otf, f)
+			}
+		}
+		if rf.Chance(0.5) {
+			otf = []string{"ot:common/Raleway-v4020-Regular.otf", "ot:common/Lmmono-italic.otf", "ot:common/OldaniaADFStd-Bold.otf", "hb:fonts/SourceSansPro-Regular.otf"}
+		}
+		for try := 0; try < 6 && len(otf) > 0; try++ {
+			name := kernel.Pick(rf, otf)
+			pimg := corpus.Bytes(name)
+			if len(pimg) > 4<<20 {
+				continue
+			}
+			if ops := faultdisk.CFFDictOperators(pimg); len(ops) > 0 {
+				off := kernel.Pick(rf, ops)
+				nv := byte(rf.Intn(22))
+				if nv == 12 || nv == pimg[off] {
+					nv = 13 // UniqueID: a harmless sink for the operands
+				}
+				c.Font = name
+				c.Bytes = []ByteFault{{Kind: "bytes", Off: off, Data: []byte{nv}, Aim: fmt.Sprintf("CFF:dict-operator %d->%d", pimg[off], nv)}}
+				return json.Marshal(c)
+			}
+		}
+	}
 	if rk.Chance(0.012) {
 		// structure-aware adversarial plan: the packed point numbers of a glyph's variation data
 		// rewritten in place (same length) so that the running sum leaves the glyph or wraps
